@@ -141,8 +141,10 @@ impl Hasher for Rp64_256 {
         // every 7-byte chunk is guaranteed to map to some field element.
         let mut i = 0;
         let mut buf = [0_u8; 8];
-        for chunk in bytes.chunks(7) {
-            if i < num_elements - 1 {
+        for (chunk_index, chunk) in bytes.chunks(7).enumerate() {
+            // `i` is the position within the current rate block, so the last chunk must be
+            // identified by its overall index
+            if chunk_index < num_elements - 1 {
                 buf[..7].copy_from_slice(chunk);
             } else {
                 // if we are dealing with the last chunk, it may be smaller than 7 bytes long, so
